@@ -158,9 +158,13 @@ func Parse(s string) (*DPoP, error) {
 	}
 	if v, ok := token.Get(HTUKey); !ok || v == "" {
 		return nil, fmt.Errorf("%w: missing htu claim", ErrInvalidDPoP)
+	} else if _, isString := v.(string); !isString {
+		return nil, fmt.Errorf("%w: invalid htu claim", ErrInvalidDPoP)
 	}
 	if v, ok := token.Get(HTMKey); !ok || v == "" {
 		return nil, fmt.Errorf("%w: missing htm claim", ErrInvalidDPoP)
+	} else if _, isString := v.(string); !isString {
+		return nil, fmt.Errorf("%w: invalid htm claim", ErrInvalidDPoP)
 	}
 	if token.JwtID() == "" {
 		return nil, fmt.Errorf("%w: missing jti claim", ErrInvalidDPoP)
@@ -189,18 +193,20 @@ func jwkIsPrivateKey(jwk jwk.Key) bool {
 	return false
 }
 
-// HTU returns the htu claim of the DPoP token
+// HTU returns the htu claim of the DPoP token, or an empty string if it is missing or not a string
 func (t DPoP) HTU() string {
 	if v, ok := t.Token.Get(HTUKey); ok {
-		return v.(string)
+		s, _ := v.(string)
+		return s
 	}
 	return ""
 }
 
-// HTM returns the htm claim of the DPoP token
+// HTM returns the htm claim of the DPoP token, or an empty string if it is missing or not a string
 func (t DPoP) HTM() string {
 	if v, ok := t.Token.Get(HTMKey); ok {
-		return v.(string)
+		s, _ := v.(string)
+		return s
 	}
 	return ""
 }
@@ -220,8 +226,14 @@ func (t DPoP) Match(jkt string, method string, url string) (bool, error) {
 	if method != t.HTM() {
 		return false, fmt.Errorf("method mismatch, token: %s, given: %s", t.HTM(), method)
 	}
-	urlLeft := strip(t.HTU())
-	urlRight := strip(url)
+	urlLeft, err := strip(t.HTU())
+	if err != nil {
+		return false, fmt.Errorf("invalid htu claim: %w", err)
+	}
+	urlRight, err := strip(url)
+	if err != nil {
+		return false, fmt.Errorf("invalid url: %w", err)
+	}
 	if urlLeft != urlRight {
 		return false, fmt.Errorf("url mismatch, token: %s, given: %s", urlLeft, urlRight)
 	}
@@ -229,13 +241,16 @@ func (t DPoP) Match(jkt string, method string, url string) (bool, error) {
 	return true, nil
 }
 
-func strip(raw string) string {
-	url, _ := url.Parse(raw)
+func strip(raw string) (string, error) {
+	url, err := url.Parse(raw)
+	if err != nil {
+		return "", err
+	}
 	url.Scheme = "https"
 	url.Host = strings.Split(url.Host, ":")[0]
 	url.RawQuery = ""
 	url.Fragment = ""
-	return url.String()
+	return url.String(), nil
 }
 
 func (t DPoP) MarshalJSON() ([]byte, error) {
